@@ -81,7 +81,11 @@ pub struct Style {
 }
 /// gap codes selectable through the secondary index (secondary = base + SECONDARY * code)
 pub const GAPS: [(u32, u32, u32); 7] = [(0, 1, 0), (256, 3, 0), (255, 3, 0), (300, 4, 1), (16, 1, 0), (1000, 5, 2), (257, 2, 1)];
-pub const PAYLOADS: [&str; 5] = ["; c", "; \" unbalanced quote", ";.end", ";; LD R0, X : ,", ";"];
+pub const PAYLOADS: [&str; 13] = ["; c", "; \" unbalanced quote", ";.end", ";; LD R0, X : ,", ";",
+    // comment texts outside ASCII (selected through secondary codes >= GAPS.len(): secondary = base + SECONDARY * (GAPS.len() + k))
+    "; é", ";é", "; naïve — “quoted” ñ LOOP", "; ascii then two-byte at the end é", "; 𝄞 four bytes ADD R0,R0,#1", "; tab\tthen é\tx", ";\u{00A0}nbsp \u{3000}wide", "; ß İ ǅ ﬁ"];
+/// number of payloads reachable through the ordinary secondary index
+pub const BASIC_PAYLOADS: u64 = 5;
 impl Style {
     pub fn plain() -> Style {
         Style { kw: Case::Upper, reg_upper: true, dir: Case::Lower, hex_upper: false, num: NumStyle::Hex, sep: Sep::Space,
@@ -106,9 +110,11 @@ impl Style {
     pub const SECONDARY: u64 = 4 * 5 * 2 * 2 * 2;
     pub fn with_secondary(&self, mut i: u64) -> Style {
         let mut s = self.clone();
-        s.gap = GAPS[((i / Self::SECONDARY) as usize).min(GAPS.len() - 1)]; i %= Self::SECONDARY;
+        let code = (i / Self::SECONDARY) as usize;
+        s.gap = GAPS[if code < GAPS.len() { code } else { 0 }]; i %= Self::SECONDARY;
+        let extra = if code >= GAPS.len() { Some((code - GAPS.len()).min(PAYLOADS.len() - BASIC_PAYLOADS as usize - 1)) } else { None };
         let mut take = |n: u64| { let r = i % n; i /= n; r };
-        s.comma = take(4) as u8; s.payload = take(5) as u8; s.leading_blank = take(2) == 1; s.final_newline = take(2) == 0; s.indent = take(2) == 1;
+        s.comma = take(4) as u8; s.payload = take(5) as u8; if let Some(e) = extra { s.payload = BASIC_PAYLOADS as u8 + e as u8; } s.leading_blank = take(2) == 1; s.final_newline = take(2) == 0; s.indent = take(2) == 1;
         s
     }
     /// number of secondary dimensions that differ from the defaults of `plain()`
